@@ -86,6 +86,7 @@ COMMON_HEAD = r"""
 
 int other_tu_value();
 const char *other_tu_label();
+void fine_tu_print();
 unsigned other_tu_checksum();
 const void *other_tu_label_address(unsigned i);
 
@@ -210,6 +211,7 @@ def body_main(tree, sel, probe_cfg):
     out.append('    std::printf("other %d %s same_label=%d\\n", other_tu_value(), other_tu_label(),')
     out.append("                int(other_tu_label() == unit_label<Seconds>()));")
     out.append('    std::printf("base %d %d\\n", (hours(2) + minutes(30)).in(seconds), int(minutes(1) == seconds(60)));')
+    out.append("    fine_tu_print();")
     types = unit_type_list(tree, units)
     # Every selected unit takes part in the cross-TU checksum below; the (expensive to compile)
     # full per-unit probe is instantiated for all of them up to FULL_PROBE_LIMIT, beyond that for
@@ -289,9 +291,62 @@ def body_other(tree, sel):
     return "\n".join(out) + "\n"
 
 
+# A third translation unit organised the way users of the multi-header tree often organise theirs:
+# fine-grained includes only (no au/au.hh), plus a type of their own plugged into the documented
+# customisation point CorrespondingQuantity<T>.  Against the single-file package it includes au.hh.
+FINE_BODY = r"""
+#include <cstdio>
+
+namespace legacy {
+struct Ticks {
+    int n;
+};
+struct FTicks {
+    double x;
+};
+}  // namespace legacy
+
+namespace au {
+template <>
+struct CorrespondingQuantity<legacy::Ticks> {
+    using Unit = Seconds;
+    using Rep = int;
+    static constexpr Rep extract_value(legacy::Ticks t) { return t.n; }
+    static constexpr legacy::Ticks construct_from_value(Rep x) { return {x}; }
+};
+template <>
+struct CorrespondingQuantity<legacy::FTicks> {
+    using Unit = Seconds;
+    using Rep = double;
+    static constexpr Rep extract_value(legacy::FTicks t) { return t.x; }
+    static constexpr legacy::FTicks construct_from_value(Rep x) { return {x}; }
+};
+}  // namespace au
+
+void fine_tu_print() {
+    using namespace au;
+    constexpr legacy::Ticks t5{5};
+    constexpr legacy::FTicks f30{30.0};
+    const legacy::Ticks back = seconds(9);
+    const legacy::FTicks fback = minutes(1.5);
+    std::printf("fine %d %d %d %d %d %d %d | %d %d %.17g %.17g %.17g %zu %zu\n", int(seconds(3) < t5), int(t5 == seconds(5)), int(minutes(1) != t5), int(t5 >= seconds(6)),
+                (seconds(2) + t5).in(seconds), (t5 - seconds(1)).in(seconds), as_quantity(t5).in(seconds), back.n, int(minutes(1) > t5),
+                (minutes(1.0) + f30).in(seconds), (f30 - seconds(0.5)).in(seconds), fback.x, sizeof(seconds(2) + t5), sizeof(minutes(1.0) + f30));
+}
+"""
+
+
+def fine_source(sel, variant):
+    if variant == "single":
+        pre = ['#include "au.hh"']
+    else:
+        pre = ['#include "au/quantity.hh"', '#include "au/units/seconds.hh"', '#include "au/units/minutes.hh"']
+    return "\n".join(pre) + "\n" + FINE_BODY
+
+
 def sources(tree, sel, probe_cfg, variant):
     """{filename: text} for one variant ('single' or 'multi')."""
     seed = probe_cfg.get("include_order")
     main = "\n".join(preamble(tree, sel, variant, seed, "probe", 2)) + "\n" + body_main(tree, sel, probe_cfg)
     other = "\n".join(preamble(tree, sel, variant, seed, "other", 1)) + "\n" + body_other(tree, sel)
-    return {"probe.cc": main, "other.cc": other}
+    return {"probe.cc": main, "other.cc": other, "fine.cc": fine_source(sel, variant)}
